@@ -95,4 +95,39 @@ CHECKS = {
                      "unsigned output types are only asked to store non-negative data"],
         distinct_by_hash=True,
     ),
+    "C07": dict(
+        level="exploration",
+        parts=[dict(harness="chk_C07", variant="seq", src="checks/chk_C07.cpp",
+                    runs=dict(quick=800, thorough=40000), wall_cap=dict(quick=150, thorough=2400))],
+        rule=("one case = generated small problem (scanner, image, Poisson-like data, additive term on/off, symmetries on/off, number of "
+              "subsets, start subset, subset sensitivities on/off, save interval, 1..3 full iterations) and one class: formula (EM step on "
+              "the explicit matrix after every sub-iteration, non-negativity, monotone likelihood and count preservation for one subset); "
+              "crash (process dies at a write call drawn over ALL write calls of the run, lost / torn / complete, up to 3 crashes, restart "
+              "from the newest iterate the library accepts, optionally re-using sensitivity files); resume_fresh / resume_reuse (same "
+              "objective function object) / resume_default at a drawn saved sub-iteration k; transparent short/EINTR I/O.  Resumed runs "
+              "are compared bitwise with the uninterrupted run's iterate files.  Non-trivial: every run; distinct = event-log hash."),
+        components=dict(real=REAL_COMMON + ["OSMAPOSLReconstruction, IterativeReconstruction loop and saving, objective function, projectors, "
+                                            "InterfileOutputFileFormat, read_from_file"],
+                        stub=STUB_IO + ["explicit system matrix from the ray-tracing matrix without cache and symmetries (reference)"]),
+        assumptions=["restart protocol: newest iterate that read_from_file accepts, start at k+1, enforce initial positivity off (the image is "
+                     "an iterate), sensitivities recomputed or re-read; with the library defaults agreement is checked to 1e-5 of the maximum",
+                     "process-crash model, no fsync", "no prior / filters in the crash classes; trivial normalisation"],
+        distinct_by_hash=True,
+    ),
+    "C08": dict(
+        level="exploration",
+        parts=[dict(harness="chk_C08", variant="seq", src="checks/chk_C08.cpp",
+                    runs=dict(quick=800, thorough=40000), wall_cap=dict(quick=150, thorough=2400))],
+        rule=("as C07 with OSSPS: generated problem, relaxation (alpha, gamma), upper bound, quadratic prior on/off with penalisation "
+              "factor, and one class: formula (clamp(lambda + zeta N grad_S Phi / D, 0, upper bound) on the explicit matrix after every "
+              "sub-iteration, iterates within [0, upper bound]); crash at a write call drawn over all write calls incl. the "
+              "precomputed-denominator file; resume_fresh / resume_reuse / resume_default at a drawn saved k; transparent short/EINTR I/O.  "
+              "Non-trivial: every run; distinct = event-log hash."),
+        components=dict(real=REAL_COMMON + ["OSSPSReconstruction, IterativeReconstruction loop and saving, objective function incl. approximate "
+                                            "Hessian, QuadraticPrior (gradient and surrogate curvature taken from the library), projectors, Interfile output"],
+                        stub=STUB_IO + ["explicit system matrix (reference)"]),
+        assumptions=["restart protocol as C07", "restart equivalence only for no prior / quadratic prior, as the property says",
+                     "the prior's own gradient and curvature are taken from the library (C09 is not claimed)"],
+        distinct_by_hash=True,
+    ),
 }
